@@ -504,8 +504,9 @@ class LDAPClient(LDAPSession):
             authentication=authentication,
         )
 
+        msg_id = self._send(msg)
         self.state = SessionState.BINDING
-        return self._send(msg)
+        return msg_id
 
     def extended_request(
         self,
